@@ -4,6 +4,9 @@
 use crate::util::{Rng, Stats};
 
 pub mod param;
+pub mod psm;
+pub mod static_sound;
+pub mod transport;
 pub mod units;
 
 pub fn suite_salt(name: &str) -> u64 {
@@ -15,6 +18,10 @@ pub fn gen(suite: &str, rng: &mut Rng, n: usize, thorough: bool, stats: &mut Sta
 	match suite {
 		"units" => units::gen(rng, n, thorough, stats),
 		"param" => param::gen(rng, n, thorough, stats),
+		"transport" => transport::gen(rng, n, thorough, stats),
+		"psm" => psm::gen(rng, n, thorough, stats),
+		"static" => static_sound::gen(rng, n, thorough, stats),
+		"static_ood" => static_sound::gen_ood(rng, n, thorough, stats),
 		_ => panic!("unknown suite {}", suite),
 	}
 }
@@ -23,6 +30,9 @@ pub fn run(suite: &str, ops: &[String]) -> Vec<String> {
 	match suite {
 		"units" => units::run(ops),
 		"param" => param::run(ops),
+		"transport" => transport::run(ops),
+		"psm" => psm::run(ops),
+		"static" | "static_ood" => static_sound::run(ops),
 		_ => panic!("unknown suite {}", suite),
 	}
 }
